@@ -524,4 +524,45 @@ example : symWalk (fun p => if p = ofString "/a/b" then .link else .dir) (ofStri
 example : symlinkServed false (fun p => if p = ofString "/a/b/c" then .file else .dir) (ofString "/a/b/c") = true := by
   decide +kernel
 
+/-- mod_userdir (userdir.basepath variant): when the module takes the request, the home directory is
+    composed from the configured base path, one clean path segment (the user name: not empty, not "."
+    or "..", no '/'; lower-cased with force-lowercase-filenames) and the configured sub-path -/
+theorem c02_userdir_contained (lc lh : Bool) (basepath upath uriPath relPath p b : Bytes)
+    (h : userdirRemap lc lh basepath upath uriPath relPath = .go p b) :
+    ∃ u, Clean u ∧
+      b = pathAppend (pathAppend (if lh then pathAppend basepath (u.take 1) else basepath) u) upath := by
+  unfold userdirRemap at h
+  split at h
+  · rename_i rest
+    dsimp only at h
+    split at h
+    · split at h <;> simp at h
+    · split at h
+      · simp at h
+      · rename_i hne
+        split at h
+        · simp at h
+        · split at h
+          · simp at h
+          · rename_i hok
+            simp only [Bool.not_eq_true, Bool.not_eq_false'] at hok
+            have hne' : rest.takeWhile (· ≠ slash) ≠ [] := by
+              intro e; exact hne (by rw [e]; rfl)
+            have hc := userdirNameOk_clean hok hne'
+            have hc' : Clean (if lc then lowerBytes (rest.takeWhile (· ≠ slash)) else rest.takeWhile (· ≠ slash)) := by
+              cases lc
+              · simpa using hc
+              · simpa [lowerBytes] using clean_map_toLower hc
+            generalize (if lc then lowerBytes (rest.takeWhile (· ≠ slash)) else rest.takeWhile (· ≠ slash)) = u' at h hc'
+            split at h
+            · simp at h
+            · simp only [UserdirRes.go.injEq] at h
+              exact ⟨u', hc', h.2.symm⟩
+  · simp at h
+
+example : userdirRemap false true (ofString "/home") (ofString "public_html") (ofString "/~bob/x/y") (ofString "/~bob/x/y")
+    = .go (ofString "/home/b/bob/public_html/x/y") (ofString "/home/b/bob/public_html") := by decide
+example : userdirRemap false false (ofString "/home") (ofString "public_html") (ofString "/~../x") (ofString "/~../x")
+    = .pass := by decide
+
 end LtVerif.C02
